@@ -22,6 +22,9 @@ pub fn rule_alphabet() -> Vec<&'static str> {
         "q(X) :- p(X, V1).",
         "p(X) :- in(X), in(V1), X != V1.",
         "p(V2, X) :- in(X), in(V2), in(V1), V1 < X.",
+        // body variables named like the variables tau* generates for the arguments of body atoms (Z, Z1)
+        "q(Z) :- p(Z, Z1).",
+        "r :- p(Z1, Z), in(Z).",
         "p(X) :- in(X).",
         "p(X) :- q(X).",
         "p(X+1) :- q(X).",
